@@ -2,7 +2,7 @@
 # Runs every saved seeded defect against the checks expected to catch it (quick tier) and records the outcome
 # in seeded/<id>/meta.json and seeded/RESULTS.md.   usage: tools/seed_matrix.sh [seed-id ...]
 cd "$(dirname "$0")/.."
-seeds=${@:-$(ls seeded | grep -E '^C[0-9]+-[0-9]+$')}
+seeds=${@:-$(ls seeded | grep -E '^C[0-9]+-(r[0-9]+-)?[0-9]+$')}
 one() {
   s=$1
   d=seeded/$s
